@@ -43,6 +43,13 @@ func genRuntimeOverlay(goroot, outDir string) (string, error) {
 		"src/runtime/select.go": {
 			{"j := cheaprandn(uint32(norder + 1))", "j := uint32(norder)", 1},
 		},
+		"src/runtime/time.go": {
+			// Go randomizes the order of same-instant fake timers on purpose; use the order of arming instead
+			// (arming order follows select's lock order, i.e. channel addresses: not reproducible either, so the
+			// tie-break is the order of timer creation)
+			{"t.rand = cheaprand()", "_ = t", 1},
+			{"lockInit(&t.mu, lockRankTimer)\n\tt.f = f", "lockInit(&t.mu, lockRankTimer)\n\tt.rand = pdsimTimerSeq.Add(1)\n\tt.f = f", 1},
+		},
 		"src/runtime/rand.go": {
 			{"//go:nosplit\n//go:linkname rand\nfunc rand() uint64 {", "//go:nosplit\nfunc randReal() uint64 {", 1},
 			{"mp.cheaprand = rand()", "mp.cheaprand = randReal()", 1},
@@ -81,6 +88,9 @@ func pdsimBubbleWait() { synctestWait() }
 		}
 		if rel == "src/runtime/rand.go" {
 			out += randTail
+		}
+		if rel == "src/runtime/time.go" {
+			out += "\n// pdsim overlay: arming sequence number used to order same-instant fake timers\nvar pdsimTimerSeq atomic.Uint32\n"
 		}
 		dst := filepath.Join(outDir, strings.ReplaceAll(rel, "/", "_"))
 		if err := os.WriteFile(dst, []byte(out), 0o644); err != nil {
